@@ -84,6 +84,57 @@ theorem release_clears (h : List (Op α)) (x : α) :
   · intro w; rw [hsql]; simp [sqlRelease]
   · intro w; rw [href]; simp [refStep]
 
+omit [DecidableEq α] in
+private theorem ref_releases_keep_false [DecidableEq α] (l : List α) (g : Ref α) (a b : α) (hg : g a b = false) :
+    (l.map Op.release).foldl refStep g a b = false := by
+  induction l generalizing g with
+  | nil => exact hg
+  | cons y ys ih =>
+    simp only [List.map_cons, List.foldl_cons]
+    exact ih _ (by simp [refStep, hg])
+
+private theorem ref_releases_clear (l : List α) (g : Ref α) (a x : α) (hx : x ∈ l) :
+    (l.map Op.release).foldl refStep g a x = false := by
+  induction l generalizing g with
+  | nil => cases hx
+  | cons y ys ih =>
+    simp only [List.map_cons, List.foldl_cons]
+    by_cases hy : x ∈ ys
+    · exact ih _ hy
+    · have : x = y := by
+        cases hx with
+        | head => rfl
+        | tail _ h => exact absurd h hy
+      subst this
+      exact ref_releases_keep_false ys _ a x (by simp [refStep])
+
+/-- A3' (`BaseOrchestrator.waiting_for_results` = record the declarations, then `release_waiters` for
+    every awaited id `filter_final` returns).  Whatever happened before, whoever announces and whatever
+    else is announced in the same call: an awaited id that had ALREADY finished when the announcement
+    was recorded (`x ∈ fin`) has nothing recorded as waiting on it afterwards — not in the
+    specification, not as a row, not in `waited_by`.  This is the window between the reader's status
+    check in `DistributedInvocation.result` and its announcement: the sub-task's own release ran
+    before the edge existed. -/
+theorem announce_on_finished_records_nothing (h : List (Op α)) (w : α) (ids fin : List α) (x a : α)
+    (hx : x ∈ fin) :
+    let h' := h ++ Op.wait w ids :: fin.map Op.release
+    refRun h' a x = false ∧ (a, x) ∉ sqlRun h' ∧ a ∉ look (memRun h').waitedBy x := by
+  intro h'
+  have href : refRun h' a x = false := by
+    show (h ++ Op.wait w ids :: fin.map Op.release).foldl refStep _ a x = false
+    rw [List.foldl_append, List.foldl_cons]
+    exact ref_releases_clear fin _ a x hx
+  obtain ⟨h1, h2, _⟩ := stores_record_standing_waits h' a x
+  refine ⟨href, ?_, ?_⟩
+  · intro hm; rw [h2.1 hm] at href; cases href
+  · intro hm; rw [h1.1 hm] at href; cases href
+
+/-- …and the announcement alone (the code before the repair) left the declaration standing on the
+    finished invocation, in both stores. -/
+theorem announce_alone_left_an_edge_on_finished :
+    let h : List (Op Nat) := [Op.release 1, Op.wait 0 [1]]
+    refRun h 0 1 = true ∧ ((0, 1) ∈ sqlRun h) ∧ 0 ∈ look (memRun h).waitedBy 1 := by decide
+
 private theorem memAll_spec (h : List (Op α)) (avail : α → Bool)
     (hprem : ∀ x ∈ released h, avail x = false) :
     (memBlockingAll (memRun h) avail).Nodup ∧
